@@ -151,30 +151,30 @@ def generate(seed, run, tier):
         return {"c": wrng.choice(CONST_VALUES)}
 
     def draw_lru():
-        # stems of a universe URL (possibly a strict prefix of them, possibly
-        # with an empty path stem pushed inside); computed with plain lru_stems
-        from ural.lru.stems import lru_stems
-
+        # a recipe, turned into stems when the event is executed (generation never
+        # calls the library): the stems of a universe URL, possibly only a leading
+        # part of them, possibly with empty path stems pushed inside
         if wrng.random() < 0.04:
             # the empty LRU (also spelled as a lone empty path stem) is a key
             # like any other: it is a prefix of every query
-            return wrng.choice([[], ["p:"]])
-        stems = lru_stems(wrng.choice(universe), suffix_aware=config["suffix_aware"])
-        if len(stems) > 1 and wrng.random() < 0.4:
-            stems = stems[: wrng.randint(1, len(stems))]
+            return {"stems": wrng.choice([[], ["p:"]])}
+        recipe = {"url": wrng.choice(universe)}
+        if wrng.random() < 0.4:
+            recipe["keep"] = wrng.random()
+        p_at = []
         if wrng.random() < 0.2:
-            stems = stems[: wrng.randint(1, len(stems))] + ["p:"] + stems[len(stems):]
+            p_at.append(wrng.random())
         if wrng.random() < 0.2:
-            i = wrng.randint(1, len(stems))
-            stems = stems[:i] + ["p:"] + stems[i:]
-        return stems
+            p_at.append(wrng.random())
+        if p_at:
+            recipe["p_at"] = p_at
+        return recipe
 
     def draw_set():
         x = wrng.random()
         if x < 0.7:
             return {"op": "set", "url": wrng.choice(universe), "via": wrng.choice(["set", "set", "setitem"]), "val": draw_value()}
-        stems = draw_lru()
-        return {"op": "set_lru", "stems": stems, "as": wrng.choice(["list", "str"]) if stems else "list", "val": draw_value()}
+        return {"op": "set_lru", "lru": draw_lru(), "as": wrng.choice(["list", "str"]), "val": draw_value()}
 
     scripts = [[] for _ in range(n_writers)]
     for _ in range(length):
@@ -216,8 +216,7 @@ def generate(seed, run, tier):
             if "set_unparseable" in enabled and frng.random() < fault_rate:
                 events.append({"op": "set_bad", "url": frng.choice(BAD_URLS), "val": {"c": "bad"}, "retry": frng.choice([0, 0, 1, 2]), "then_match": frng.random() < 0.3, "c": "W%d" % idx})
             if "lru_unhashable_token" in enabled and frng.random() < fault_rate:
-                stems = draw_lru()
-                events.append({"op": "set_lru_bad", "stems": stems, "k": frng.randint(0, len(stems)), "val": {"c": "bad"}, "retry": frng.choice([0, 0, 1]), "c": "W%d" % idx})
+                events.append({"op": "set_lru_bad", "lru": draw_lru(), "k": frng.randint(0, 6), "val": {"c": "bad"}, "retry": frng.choice([0, 0, 1]), "c": "W%d" % idx})
             events.append(ev)
         elif kind == "R":
             op = weighted_choice(wrng, [("match", 5), ("match_lru", 3), ("len", 1)])
@@ -225,8 +224,8 @@ def generate(seed, run, tier):
             if op == "match":
                 ev["url"] = wrng.choice(universe)
             elif op == "match_lru":
-                ev["stems"] = draw_lru()
-                ev["as"] = wrng.choice(["list", "str"]) if ev["stems"] else "list"
+                ev["lru"] = draw_lru()
+                ev["as"] = wrng.choice(["list", "str"])
             events.append(ev)
         else:
             it = "I%d" % idx
@@ -428,6 +427,24 @@ class Run(object):
     def entries_now(self, rec):
         return len(self.model)
 
+    def stems_of(self, ev):
+        """Stems of a set_lru / match_lru event: given explicitly, or derived now
+        from the event's recipe with the plain module-level lru_stems."""
+        if "stems" in ev:
+            return list(ev["stems"])
+        recipe = ev["lru"]
+        if "stems" in recipe:
+            return list(recipe["stems"])
+        from ural.lru.stems import lru_stems
+
+        stems = list(lru_stems(recipe["url"], suffix_aware=self.suffix_aware))
+        if recipe.get("keep") is not None and len(stems) > 1:
+            stems = stems[: max(1, int(len(stems) * recipe["keep"]) + 1)]
+        for p in recipe.get("p_at", ()):
+            i = min(len(stems), 1 + int(p * len(stems)))
+            stems = stems[:i] + ["p:"] + stems[i:]
+        return stems
+
     def lru_arg(self, stems, how):
         # the serialised format cannot represent an empty stem list or a last
         # stem ending in '|' (trailing pipes are stripped): pass those as lists
@@ -441,6 +458,14 @@ class Run(object):
         do_iter = force or sw.get("iter", True)
         self.sweeps += 1
         off = self.sweeps % stride
+        # every other complete observation starts with the traversal
+        iter_first = do_iter and self.sweeps % 2 == 1
+        if iter_first:
+            got = sorted(r(v) for v in bounded(self.trie, len(self.model)))
+            exp = sorted(r(v) for v in self.model.values())
+            self.stats.checks += 1
+            if got != exp:
+                self.fail("iteration", op, got, exp)
         results = {}
         n = 0
         for u in self.universe:
@@ -538,7 +563,7 @@ class Run(object):
                     stats.probe("same_string_class_size_ge2_hit")
             self.sweep("set")
         elif op == "set_lru":
-            stems = list(ev["stems"])
+            stems = self.stems_of(ev)
             key = clean(stems)
             value = dec_value(ev["val"])
             if value is None:
@@ -610,7 +635,7 @@ class Run(object):
         elif op == "set_lru_bad":
             # a stem list with an unhashable token at position k: the call must
             # fail and store nothing (len included)
-            stems = list(ev["stems"])
+            stems = self.stems_of(ev)
             k = min(ev.get("k", 0), len(stems))
             self.mutation_begins()
             for attempt in range(1 + ev.get("retry", 0)):
@@ -682,7 +707,7 @@ class Run(object):
             self.expect("match", op, got, prefix_lookup(self.model, key), {"url": url})
             stats.event("%s|match|%s" % (ev.get("c"), r(url)))
         elif op == "match_lru":
-            stems = list(ev["stems"])
+            stems = self.stems_of(ev)
             got = self.trie.match_lru(self.lru_arg(stems, ev["as"]))
             self.expect("match_lru", op, got, prefix_lookup(self.model, clean(stems)), {"stems": stems, "as": ev["as"]})
             stats.probe("match_lru_" + ev["as"])
@@ -774,6 +799,19 @@ def shrink_event(config, ev):
                 e = dict(ev)
                 e["stems"] = ev["stems"][:i] + ev["stems"][i + 1 :]
                 out.append(e)
+    lru = ev.get("lru")
+    if isinstance(lru, dict) and "url" in lru:
+        if lru.get("p_at"):
+            e = dict(ev)
+            e["lru"] = dict(lru, p_at=lru["p_at"][:-1])
+            out.append(e)
+        if lru.get("keep") is not None:
+            e = dict(ev)
+            e["lru"] = {k: v for k, v in lru.items() if k != "keep"}
+            out.append(e)
+            e = dict(ev)
+            e["lru"] = dict(lru, keep=lru["keep"] / 2)
+            out.append(e)
     if ev.get("as") == "str":
         e = dict(ev)
         e["as"] = "list"
@@ -802,7 +840,7 @@ def shrink_config(case):
         c = dict(cfg)
         c["sweep"] = {"iter": True, "stride": 1}
         out.append({"config": c, "events": case["events"]})
-    used = set(ev.get("url") for ev in case["events"])
+    used = set(ev.get("url") for ev in case["events"]) | set(ev["lru"].get("url") for ev in case["events"] if isinstance(ev.get("lru"), dict))
     # halve the universe, keeping URLs the events name
     uni = cfg["universe"]
     if len(uni) > 2:
